@@ -50,6 +50,26 @@ def _stub_env(B, D, with_params=None):
     return Stub()
 
 
+class _ConcreteEnv:
+    """a two-field action drives the inner environment in replays: action = [reward, terminate flag]"""
+
+    params = None
+
+    def __init__(self, D):
+        self.D = D
+
+    def reset(self, rng=None):
+        import jax.numpy as jnp
+        from flax.core import FrozenDict
+        from rex import base
+        from vlib.fixtures import PState
+        return base.GraphState(rng=FrozenDict({"n": rng}), state=FrozenDict({"n": PState(x=jnp.float32(0.0))})), jnp.zeros((self.D,), jnp.float32), {}
+
+    def step(self, gs, action):
+        import jax.numpy as jnp
+        return gs, jnp.zeros((self.D,), jnp.float32), action[0], action[1] > 0.5, jnp.bool_(False), {}
+
+
 def _eqz(alg, a, b):
     from vlib import jx
     e = jx.tree_equal(alg, a, b)
@@ -221,6 +241,41 @@ def worker(cfg, tier):
                                     cfg, it, tr, flat, calls, out, [], G, "logwrapper", "LogWrapper.step mis-accounts episode return/length", tmo))
         v, m, s = smt.satisfiable([done, ret != 0], 10)
         obs.append(Ob("twin.done_with_running_return", v, s, cfg, kind="vacuity"))
+
+    elif which == "log_fp32":
+        # the log wrapper's accounting in float32 with non-finite rewards admitted ("for all reward sequences"): at an episode end the running
+        # return/length restart from zero and the report is the sum so far plus this reward; a non-finite reward must not poison later episodes
+        alg = jx.FPAlg()
+        it = jx.Interp(alg=alg)
+        env = rl.LogWrapper(_ConcreteEnv(D))  # the inner environment's reward and termination flag are the two (symbolic) action entries
+        ls = rl.LogState(episode_returns=jnp.float32(0), episode_lengths=jnp.int32(0), returned_episode_returns=jnp.float32(0),
+                         returned_episode_lengths=jnp.int32(0), timestep=jnp.int32(0))
+        gs0 = gs_base({"log": ls})
+        tr = jx.Traced(env.step, gs0, jnp.zeros((2,), jnp.float32))
+        flat = tr.sym_inputs(it, "l")
+        gs, act = tr.in_pytree(flat)
+        out = tr.run(it, flat)
+        i_rew = act.v[0]
+        done = z3.fpGT(act.v[1], z3.FPVal(0.5, alg.F32))
+        L0, L1 = gs.aux["log"], out[0].aux["log"]
+        ret0, ret1 = L0.episode_returns.item(), L1.episode_returns.item()
+        fin = lambda a: z3.Not(z3.Or(z3.fpIsNaN(a), z3.fpIsInf(a)))
+        pre = [fin(ret0), z3.Not(z3.fpIsNaN(i_rew))]
+        zero = z3.FPVal(0.0, alg.F32)
+        goal = z3.Implies(done, z3.fpEQ(ret1, zero))
+        v, m, sec = smt.check(pre, goal, tmo)
+        o_ = Ob("log wrapper (float32): at an episode end the running return restarts at 0 for every reward that is not NaN (infinite rewards included)", v, sec, cfg, key="log-restart-fp32",
+                what="LogWrapper masks with `x * (1 - done)`: an infinite reward in the finishing episode leaves NaN (inf * 0) in the running return, which poisons every later episode's report")
+        if v == "sat":
+            try:
+                e2 = rl.LogWrapper(_ConcreteEnv(D))
+                g2, _, _ = e2.reset(key0)
+                g2, *_ = e2.step(g2, jnp.array([np.inf, 1.0], jnp.float32))   # reward inf, episode ends
+                g2, _, r3, *_ = e2.step(g2, jnp.array([1.0, 1.0], jnp.float32))  # a finite one-step episode afterwards
+                o_.replayed = bool(np.isnan(np.asarray(g2.aux["log"].returned_episode_returns)))
+            except Exception as ex:  # noqa
+                o_.detail = f"replay raised {type(ex).__name__}: {ex}"
+        obs.append(o_)
 
     elif which == "squash_fp32":
         # "squashed actions always land inside the action bounds" in the arithmetic the code runs in: float32, round-to-nearest-even.
@@ -636,7 +691,7 @@ def _replay_autoreset_fresh():
 def configs(tier):
     from vlib import cg
 
-    out = [dict(which=w) for w in ("autoreset_fixed", "autoreset_fresh", "log", "squash", "nosquash", "squash_fp32")]
+    out = [dict(which=w) for w in ("autoreset_fixed", "autoreset_fresh", "log", "squash", "nosquash", "squash_fp32", "log_fp32")]
     out += [dict(which="norm_obs", B=2, D=1), dict(which="norm_reward", B=2, D=1)]
     out += [dict(which="norm_obs", B=1, D=1), dict(which="norm_reward", B=1, D=1)]  # a single vectorised environment (batch statistics of one sample)
     out += [dict(which="env_step", inst=cg.instances("quick", small=True)[0]), dict(which="env_step", inst=cg.instances("quick", small=True)[0], hooks=True)]
